@@ -12,7 +12,7 @@ import glob
 import json
 import os
 
-from harness import core, msgs
+from harness import c17_info, core, msgs
 
 PROP = 'C17'
 
@@ -357,6 +357,9 @@ def run(ctx):
         stream_scan(ctx, [g[0] for g in rng.sample(generated, n)], rng)
     if files:
         stream_scan(ctx, [g[0] for g in rng.sample(generated, 3)], rng)
+    # metadata-only decoding ignores the data content: both entry points x every data category x header values x
+    # data section intact / random / 0xFF / 0x00 / stream cut at its declared end (harness/c17_info.py)
+    breaks += c17_info.run(ctx)
     ctx.notes.append('expressions per message: %d; parameter names: %d; sample files: %d' % (len(exprs), len(names), len(files)))
     if breaks and ctx.violations == 0:
         b = breaks[0]
@@ -373,7 +376,9 @@ def replay(ctx, path):
     rp = body['replay']
     if 'first' in rp:
         rp = rp['first']
-    if 'expr' in rp and 'hex' in rp:
+    if 'info_matrix' in rp:
+        c17_info.replay(ctx, rp['info_matrix'])
+    elif 'expr' in rp and 'hex' in rp:
         b = bytes.fromhex(rp['hex'])
         br = check_queries(ctx, 'replay', b, rp.get('data_bits', 0), [rp['expr']], rp.get('info_only', False), rp.get('spec'))
         print(json.dumps({'breaks': br}, default=repr)[:2000])
